@@ -77,7 +77,7 @@ template <class Types> static void tiff_seeds(vh::Ctx& ctx)
             ioc::ScratchFile file("c13-" + nm, "tif", bytes);
             SeedView sv; sv.name = nm; sv.bytes = &bytes; sv.path = file.path;
             sv.file_bpp = chan_bits<Img>(); sv.aux1 = int(gil::num_channels<typename Img::view_t>::value);
-            sv.subrects = allrect || (v.w <= 5 && v.h <= 4);
+            sv.subrects = (allrect && v.w * v.h <= 20) || (v.w <= 5 && v.h <= 4);
             sv.scan_expected = !v.tiled;      // documented: scanline_reader doesn't support tiled tiff images
             ++ctx.witness[v.tiled ? "tiff_tiled_seeds" : "tiff_strip_seeds"];
             run_typed<Img>(ctx, sv, o);
